@@ -67,6 +67,10 @@ func genC15(tier string, seed uint64, emit func(string)) {
 		}
 		emit(lifeLine(cfg, []string{"start", "portoff:p", "portoff:t", "stop", "obs", "porton:p", "porton:t", "restart", "ping:p", "obs", "stop", "obs"}))
 	}
+	// Stop and Restart with a client that has stopped reading its replies (the server's write to it is blocked): the call
+	// returns, the client is disconnected, nothing stays behind
+	emit(lifeLine("plain tls", []string{"start", "open:p:a", "open:t:b", "open:p:c", "flood:a", "flood:b", "obs", "stop", "obs", "drain:a", "drain:b", "alive:c", "start", "ping:p", "ping:t", "stop", "obs"}))
+	emit(lifeLine("plain", []string{"start", "open:p:a", "flood:a", "restart", "obs", "drain:a", "ping:p", "open:p:d", "flood:d", "restart", "drain:d", "stop", "obs"}))
 	calls := []string{"start", "stop", "restart"}
 	for _, cfg := range []string{"plain", "plain tls"} {
 		var rec func(prefix []string)
@@ -264,6 +268,11 @@ func genC19(tier string, seed uint64, emit func(string)) {
 		_ = st
 	}
 	emit(lifeLine("plain tls", []string{"start", "open:p:a", "open:t:b", "open:p:c", "stallreq:a", "stallreq:b", "stallreq:c", "obs", "stop", "obs", "alive:a", "alive:b", "alive:c"}))
+	// clients that stop reading: the server's write to them is blocked when the connection ends - by Stop, by Restart, or by
+	// the client going away
+	emit(lifeLine("plain tls", []string{"start", "open:p:a", "open:t:b", "flood:a", "flood:b", "obs", "stop", "obs", "drain:a", "drain:b"}))
+	emit(lifeLine("plain", []string{"start", "open:p:a", "open:p:c", "flood:a", "restart", "obs", "drain:a", "alive:c", "ping:p", "stop", "obs"}))
+	emit(lifeLine("plain tls", []string{"start", "open:p:a", "open:t:b", "flood:a", "flood:b", "cclose:a", "rst:b", "obs", "ping:p", "ping:t", "stop", "obs"}))
 	// a second Start on the running server fails (ports in use) and must leave the served connections releasable
 	emit(lifeLine("plain tls", []string{"start", "open:p:a", "open:t:b", "start", "obs", "cmd:a", "cmd:b", "cclose:a", "obs", "start", "stop", "obs", "alive:b"}))
 	emit(lifeLine("plain", []string{"start", "open:p:a", "start", "start", "obs", "restart", "obs", "alive:a", "open:p:c", "start", "stop", "obs", "alive:c"}))
